@@ -18,7 +18,7 @@ from strict import LINE_ATTR, code_key, digest64, jkey, short, skey, walk_codes
 
 from code_data import CodeData
 
-H = 20.0
+H = 60.0  # per-call horizon (seconds): generous, it only turns non-termination into an observation
 LINETABLE = PY >= (3, 10)
 
 
@@ -361,6 +361,7 @@ class C06(Monitor):
                 raise ref.HarnessError("variant %r of %r does not keep the meaning" % (desc, case))
             stats.evaluations += 1
             stats.reach["variant:" + desc.split(" ")[0]] += 1
+            stats.sample("VAR:" + desc.split(" ")[0], {"program": case.get("src", case.get("kind")), "code_object_path": path, "variant": desc}, per=1)
             stats.nontriv(("variant", code_key(v)))
             sub = dict(case, variant=desc)
             try:
@@ -442,7 +443,7 @@ def first_diff(x, y, path="x"):
 
 
 # ------------------------------------------------------------------------------ C12
-CALLS = ["from_code(c)", "to_code(d)", "to_code(n)", "normalize(d)", "normalize(n)", "to_json(d)", "to_json(n)", "from_json(jd)", "from_json(jn)"]
+CALLS = ["from_code(c)", "to_code(d)", "to_code(n)", "normalize(d)", "normalize(n)", "to_json(d)", "to_json(n)", "from_json(jd)", "from_json(jn)", "from_json(jbad)"]
 
 
 def do_call(name, st):
@@ -464,6 +465,10 @@ def do_call(name, st):
         return CodeData.from_json_data(st["jd"])
     if name == "from_json(jn)":
         return CodeData.from_json_data(st["jn"])
+    if name == "from_json(jbad)":
+        # a document that cannot be loaded (a required key is missing deep inside):
+        # the call fails, and must fail the same way every time and leave nothing behind
+        return CodeData.from_json_data(st["jbad"])
     raise KeyError(name)
 
 
@@ -478,7 +483,24 @@ def result_key(v):
 def snapshot(st):
     # documents: exact, including key order and nested containers; everything else by
     # strict key (bit-exact floats: nothing may be touched)
-    return (code_key(st["c"]), skey(st["d"]), skey(st["n"]), jkey(st["jd"]), jkey(st["jn"]))
+    return (code_key(st["c"]), skey(st["d"]), skey(st["n"]), jkey(st["jd"]), jkey(st["jn"]), jkey(st["jbad"]))
+
+
+def break_document(doc):
+    """A deep copy of doc with 'stacksize' removed from the innermost nested code
+    document (the top-level one if nothing is nested)."""
+    bad = copy.deepcopy(doc)
+
+    def innermost(d):
+        for b in d.get("blocks", []):
+            for ins in b:
+                a = ins.get("arg")
+                if isinstance(a, dict) and isinstance(a.get("constant"), dict) and "filename" in a["constant"]:
+                    return innermost(a["constant"])
+        return d
+
+    innermost(bad).pop("stacksize", None)
+    return bad
 
 
 def container_paths(doc, path=()):
@@ -587,7 +609,8 @@ class C12(Monitor):
     def fresh_store(self, code):
         d = CodeData.from_code(code)
         n = d.normalize()
-        return {"c": code, "d": d, "n": n, "jd": d.to_json_data(), "jn": n.to_json_data()}
+        jd = d.to_json_data()
+        return {"c": code, "d": d, "n": n, "jd": jd, "jn": n.to_json_data(), "jbad": break_document(jd)}
 
     def histories(self, case, code, stats, only=None):
         try:
@@ -647,7 +670,7 @@ class C12(Monitor):
         # Documents (the only mutable objects) are compared after every call, the
         # whole store after every sequence.
         st = st0
-        docs0 = (repr(st["jd"]), repr(st["jn"]))
+        docs0 = (repr(st["jd"]), repr(st["jn"]), repr(st["jbad"]))
         for seq in seqs:
             for pos, name in enumerate(seq):
                 try:
@@ -660,8 +683,8 @@ class C12(Monitor):
                 except Exception as e:
                     rk = ("raises", type(e).__name__)
                 stats.transitions += 1
-                if (repr(st["jd"]), repr(st["jn"])) != docs0:
-                    which = [n for n, a, b in zip(("c", "d", "n", "jd", "jn"), base, snapshot(st)) if a != b]
+                if (repr(st["jd"]), repr(st["jn"]), repr(st["jbad"])) != docs0:
+                    which = [n for n, a, b in zip(("c", "d", "n", "jd", "jn", "jbad"), base, snapshot(st)) if a != b]
                     stats.violation(
                         dict(case, history=list(seq[: pos + 1])),
                         "argument-mutated",
@@ -679,7 +702,7 @@ class C12(Monitor):
                 after = snapshot(st)
                 if after != base:
                     snaps.add(digest64(after))
-                    which = [n for n, a, b in zip(("c", "d", "n", "jd", "jn"), base, after) if a != b]
+                    which = [n for n, a, b in zip(("c", "d", "n", "jd", "jn", "jbad"), base, after) if a != b]
                     stats.violation(dict(case, history=list(seq)), "argument-mutated", "%s modified %s" % (list(seq), which))
                     return
         stats.states += len(snaps)
